@@ -153,6 +153,9 @@ pub fn scenarios() -> Vec<Scenario> {
         Scenario { name: "cold-update-vs-delete", what: "cold cache: an update and a delete of different rows of one table", setup: { let mut v = base(); v.push("#flush".into()); v }, clients: vec![vec![auto("UPDATE a SET v = 11 WHERE k = 1")], vec![auto("DELETE FROM a WHERE k = 2")]], tables: vec!["a", "b"], cfg },
         Scenario { name: "cold-unique-insert-vs-lookup", what: "cold cache: insert into and index lookup on a table with a unique index", setup: { let mut v = uniq(); v.push("#flush".into()); v }, clients: vec![vec![auto("INSERT INTO x VALUES (3, 30)")], vec![auto("SELECT * FROM x WHERE k = 2")]], tables: vec!["x", "a"], cfg },
         Scenario { name: "cold-ddl-vs-dml", what: "cold cache: CREATE TABLE and an insert into another table (both first touch the catalog pages)", setup: { let mut v = base(); v.push("#flush".into()); v }, clients: vec![vec![auto("CREATE TABLE c (k INT)")], vec![auto("INSERT INTO a VALUES (3, 30)")]], tables: vec!["a", "b"], cfg },
+        // index scan (holds the index tree, fetches rows from the table tree) against a delete (table tree, then index tree)
+        Scenario { name: "index-scan-vs-delete", what: "range scan through a unique index and a delete on the same table", setup: uniq(), clients: vec![vec![auto("SELECT * FROM x WHERE k >= 1")], vec![auto("DELETE FROM x WHERE k = 2")]], tables: vec!["x", "a"], cfg },
+        Scenario { name: "index-lookup-vs-delete", what: "point lookup through a unique index and a delete of another key", setup: uniq(), clients: vec![vec![auto("SELECT * FROM x WHERE k = 1")], vec![auto("DELETE FROM x WHERE k = 2")]], tables: vec!["x", "a"], cfg },
         // a pool of ONE worker (hook verif::set_inline_single_worker): a task that waits while it occupies the worker
         // blocks every queued task
         Scenario { name: "pool1-vacuum-vs-insert", what: "single pool worker: VACUUM and an insert", setup: { let mut v = base(); v.push("DELETE FROM a WHERE k = 2".into()); v }, clients: vec![vec![COp::Vacuum], vec![auto("INSERT INTO a VALUES (3, 30)")]], tables: vec!["a", "b"], cfg },
